@@ -919,8 +919,9 @@ pub fn sort(list: &Value, ordering_function: &Value) -> Value {
       if parameters.len() == 2 {
         let precedes = |x: &Value, y: &Value| {
           let mut ctx = FeelContext::default();
-          ctx.set_entry(&parameters[0].0, x.clone());
-          ctx.set_entry(&parameters[1].0, y.clone());
+          // the arguments are coerced to the types of the parameters, as in any function invocation
+          ctx.set_entry(&parameters[0].0, parameters[0].1.coerced(x));
+          ctx.set_entry(&parameters[1].0, parameters[1].1.coerced(y));
           let scope: Scope = ctx.into();
           matches!(body.evaluate(&scope), Value::Boolean(true))
         };
